@@ -598,7 +598,7 @@ func (r *runner) floor(op []string) (obs string, has bool) {
 	default:
 		return "bad-op", true
 	}
-	defer func() {
+	defer func() { // no sampler is expected to panic on these inputs; report it as an observation if one does
 		if e := recover(); e != nil {
 			obs, has = "panic", true
 		}
